@@ -22,17 +22,24 @@ from .common import Check, Model
 ASSUMPTIONS = [
     "C05 model: Incr/WorkQueue.v (graph state machine of work_queue.py with all task computations as pending "
     "futures settled by explicit events and scripted stream queues), Incr/Publisher.v (id table), Incr/Protocol.v "
-    "(validator), Incr/StreamQueue.v (ordered delivery of batches())",
+    "(payload validator), Incr/NodeProtocol.v (the protocol on work-queue events), Incr/StreamQueue.v (ordered "
+    "delivery of batches())",
+    "proved by induction over all runs: stream queue order, termination exactly once, publisher+protocol for every "
+    "node-level well-formed event trace, and - for FLAT work (no nested work in task results / stream items) whose "
+    "initial graph state passes the executable check init_ok - the graph invariant and protocol validity of "
+    "publish(run ...) for every enabled event sequence and batching; for work with nested results the same is "
+    "established only by exhaustive exploration (inside Coq for an explicit family of 49 graphs, and by the extracted "
+    "explorer on generated graphs at every run)",
     "asyncio hand-off (Queue/Event pacing between pump and consumer, done-callbacks) is abstracted to one graph event "
     "per settled future / delivered queue batch; tied by driving the real WorkQueue in a real event loop",
     "synchronously completing tasks (values instead of futures) occur only in the end-to-end runs, which are checked by "
     "the validators, not by the graph model",
     "the clause 'targets an existing object or list in the data assembled so far' is checked by the Python validator on "
-    "real payloads only (data is not modelled in Coq)",
+    "real payloads (entries applied one by one in list order); in Coq data is abstracted to the creation-order rule "
+    "(work declared by a task result / stream item is delivered and announced after that result)",
     "'enclosing fragment' = a deferred fragment whose label is a syntactic ancestor (from the request document) and whose "
-    "path is a prefix; payload granularity: an enclosing fragment completed in the same payload does not count as pending",
-    "the in-Coq exhaustive exploration theorems (C05_*_partial) cover an explicit finite family of work graphs and all "
-    "enabled event sequences up to a stated length",
+    "path is a prefix, unless a stream announced in between delivers the list item; payload granularity: an enclosing "
+    "fragment completed in the same payload does not count as pending",
 ]
 
 SETTLE_MAX = 400
@@ -1662,10 +1669,12 @@ def run(tier):
                "work in task results and stream items, children sometimes listed before parents) x event orders (DFS over all "
                "enabled choices of task success/failure, stream batch of 1/2/all+stop, stream end, stream failure, batches of 1-3 "
                "events, up to a per-graph run limit): real WorkQueue flattened events = model; real IncrementalPublisher payloads "
-               "= model publisher; payloads valid by extracted and Python validators.  (B) 20 @defer/@stream requests x "
+               "= model publisher; payloads valid by extracted and Python validators.  (B) 23 @defer/@stream requests x "
                "{sync, all async, mixed} resolvers x early execution {off,on} x completion orders (DFS, exhaustive when small): "
-               "payload stream valid.  (C) all well-formed StreamItemQueue scripts up to a length bound.  non-trivial = the run "
-               "produced at least 2 work-queue events / 2 payloads / 1 delivered batch")
+               "payload stream valid, targets exist when entries are applied in order.  (C) all well-formed StreamItemQueue scripts "
+               "up to a length bound.  (D) the extracted explorer (all enabled event sequences up to a depth) on generated graphs.  "
+               "(E) stand-alone reproductions of earlier findings.  non-trivial = the run produced at least 2 work-queue events / "
+               "2 payloads / 1 delivered batch / more than 3 explored paths")
     import os
     parts = os.environ.get("VERIF_C05_PARTS", "corpus,wq,e2e,siq,explore").split(",")
     if "corpus" in parts:
